@@ -272,6 +272,14 @@ def _callee_params(L, name: str):
     return None
 
 
+def _where(c: Ctx, I, r: str, x: Obj) -> str:
+    """Name of the construction site of a statement object: the parse callback of the grammar rule it was built for
+    (stable when the construction itself moves into a helper), else the enclosing function."""
+    if x.file == PARSER_REL and ("visit_" + r) in I.vm.methods:
+        return "visit_" + r
+    return site_name(c, x)
+
+
 def run_sites(ctx: Ctx):
     """Every RUN the tool can emit: (where, callee, args:list[V] or None, result_is_str or None, line, file, kind)."""
 
@@ -290,7 +298,7 @@ def run_sites(ctx: Ctx):
                     el = argl.fields.get("_exp_list") if isinstance(argl, Obj) else None
                     for nm in _names(inv) if inv is not None else ["?"]:
                         k = (x.file, nm, x.line)
-                        sites.setdefault(k, {"where": site_name(c, x), "inv": nm, "args": el, "result": None, "line": x.line, "file": x.file, "kind": "call", "rule": r, "cls": x.cls})
+                        sites.setdefault(k, {"where": _where(c, I, r, x), "inv": nm, "args": el, "result": None, "line": x.line, "file": x.file, "kind": "call", "rule": r, "cls": x.cls})
                 elif py.is_subclass(x.cls, "BasicFunctionalExpression"):
                     inv = x.fields.get("_func")
                     argl = x.fields.get("_args")
@@ -298,7 +306,7 @@ def run_sites(ctx: Ctx):
                     res = x.fields.get("_is_str_expr")
                     for nm in _names(inv) if inv is not None else ["?"]:
                         k = (x.file, nm, x.line)
-                        sites.setdefault(k, {"where": site_name(c, x), "inv": nm, "args": el, "result": res, "line": x.line, "file": x.file, "kind": "function", "rule": r, "cls": x.cls})
+                        sites.setdefault(k, {"where": _where(c, I, r, x), "inv": nm, "args": el, "result": res, "line": x.line, "file": x.file, "kind": "function", "rule": r, "cls": x.cls})
         # construction sites outside the parser (passes, prologue)
         for rel in (VISITORS_REL, "coco/b09/compiler.py", "coco/b09/error_handler.py"):
             m = py.mod(rel)
@@ -991,9 +999,11 @@ def e11(ctx: Ctx):
                         props=["C04", "C03"],
                     )
     # the PRINT patcher's test
-    pp = py.cls("BasicPrintStatementPatcherVisitor").methods.get("visit_print_statement")
+    ppc = py.cls("BasicPrintStatementPatcherVisitor")
+    pp = ppc.methods.get("visit_print_statement")
     ctx.need(pp is not None, "BasicPrintStatementPatcherVisitor.visit_print_statement", "not found")
-    tests = [n for n in ast.walk(pp) if isinstance(n, ast.Call) and isinstance(n.func, ast.Name) and n.func.id == "isinstance"]
+    # the test may sit in a helper of the pass
+    tests = [n for m_ in list(ppc.methods.values()) + list(ppc.classmethods.values()) for n in ast.walk(m_) if isinstance(n, ast.Call) and isinstance(n.func, ast.Name) and n.func.id == "isinstance"]
     ctx.need(tests, "BasicPrintStatementPatcherVisitor", "isinstance test not found")
     for n in tests:
         k = n.args[1].id if isinstance(n.args[1], ast.Name) else None
